@@ -110,6 +110,9 @@ Definition mk_datetime_checked (dt : date_v * time_v) (us : Z) : option datetime
   let t := mk_time (th (snd dt)) (tmi (snd dt)) (ts (snd dt)) us in
   if valid_dateb (fst dt) && valid_timeb t then Some (mk_dt (fst dt) t) else None.
 
+(* time(h, m, s, us): range-checked construction *)
+Definition time_checked (h m s us : Z) : option time_v := let t := mk_time h m s us in if valid_timeb t then Some t else None.
+
 (* int(s) as used by timestamp2datetime on a digit string *)
 Definition int_of_str (s : str) : option Z := parse_int s.
 
